@@ -280,6 +280,26 @@ func classifyMapRange(c *core.Ctx, s *mapRangeSite) (idiom string, bad string) {
 		switch x := n.(type) {
 		case *ast.FuncLit:
 			return true
+		case *ast.ReturnStmt:
+			// first match wins: a value derived from the entry being visited leaves the loop.  Constants (existential
+			// tests) and errors (any failure aborts) are order-insensitive in what they mean.
+			for _, r := range x.Results {
+				tv, ok := inf.Types[r]
+				if !ok || tv.Value != nil || tv.IsNil() || core.IsErrorType(tv.Type) {
+					continue
+				}
+				dep := false
+				ast.Inspect(r, func(m ast.Node) bool {
+					if id, ok := m.(*ast.Ident); ok && local[core.ObjOf(inf, id)] {
+						dep = true
+					}
+					return !dep
+				})
+				if dep {
+					bad = "returns " + core.ExprString(r) + " for the first entry visited that qualifies: the result follows map iteration order when more than one entry can qualify"
+					return false
+				}
+			}
 		case *ast.AssignStmt:
 			for i, l := range x.Lhs {
 				l = core.Unparen(l)
